@@ -14,6 +14,7 @@ CONSTANTS
   AMOUNTS = {1,2,3}
   NONCES = {1,2}
   FRESH = TRUE
+  WANTED = {}
   PREFUND = 0
   PREDEL = 0
   EVENTS = {"Deposit","Withdraw","Delegate","Undelegate","Associate","Dissociate","Slash","NstUpdate","ReleaseHold","EndBlock"}
